@@ -15,9 +15,10 @@ attribute of a group-free, UGRID-free, subsampling-free dataset:
 * `_add_message` (who gets the message: the parent variable and the component report);
 * `file_close` on the exit paths.
 
-`Cfg` selects between the code as it is (`coded`) and the code after the proposed patches
-`fixes/C13-*.patch` (`patched`); the theorems are about `patched`, the counter-examples about
-`coded`.
+`Cfg` selects between the reader before the C13 repairs (`coded`), the reader at /repo HEAD
+(`head`: the eight earlier repairs and 7931fa5 are merged) and HEAD plus the proposed, not yet merged
+patches `fixes/C13-*.patch` that concern the model (`patched`); the theorems are about `patched`
+(several about every `Cfg`), the counter-examples about `head` and `coded`.
 -/
 namespace Cfdm.RefCheck
 
@@ -39,17 +40,24 @@ structure Cfg where
   closeOnError : Bool -- files are closed when reading raises
   charFix : Bool      -- `_dimensions_are_subset` without the char-array exception
   vcrsPerField : Bool -- `g['vertical_crs']` is emptied at the start of every field (7931fa5)
+  -- proposed, not merged (fixes/C13-*.patch):
+  cmAttr : Bool       -- every cell-method-interval message quotes the `cell_methods` attribute
+  gmReport : Bool     -- a grid mapping coordinate that is not a coordinate of the data variable is reported
+  nodesComp : Bool    -- node coordinate problems are filed under the coordinate, hence copied with it
+  auxGeomKey : Bool   -- a cached auxiliary coordinate is re-used only under the same geometry container
   deriving DecidableEq, Repr
 
-/-- The reader at /repo HEAD: every proposed C13 patch has been merged (7b28365, 1b77cae, ff51328,
+/-- The reader at /repo HEAD plus the four proposed patches fixes/C13-cell-method-interval-attribute,
+-grid-mapping-coordinate-not-used, -node-coordinates-report-with-coordinate and
+-auxiliary-coordinate-cache-per-geometry. -/
+def patched : Cfg := ⟨true, true, true, true, true, true, true, true, true, true, true, true, true⟩
+/-- The reader at /repo HEAD: the first eight C13 patches have been merged (7b28365, 1b77cae, ff51328,
 a2825bb, 3d11366, abceba4, 6faacb8, and 5f7d1ae for closing on error), and 7931fa5 (C09) made
 `g['vertical_crs']` per-field state. -/
-def patched : Cfg := ⟨true, true, true, true, true, true, true, true, true⟩
-/-- The repository at HEAD (= `patched` since 6faacb8 and 7931fa5). -/
-def head : Cfg := patched
+def head : Cfg := { patched with cmAttr := false, gmReport := false, nodesComp := false, auxGeomKey := false }
 /-- HEAD before 7931fa5: the vertical coordinate references leak from one field to the next. -/
-def leakyVcrs : Cfg := { patched with vcrsPerField := false }
-def coded : Cfg := ⟨false, false, false, false, false, false, false, false, false⟩
+def leakyVcrs : Cfg := { head with vcrsPerField := false }
+def coded : Cfg := ⟨false, false, false, false, false, false, false, false, false, false, false, false, false⟩
 
 inductive Kind | num | str | chr
   deriving DecidableEq, Repr
@@ -219,7 +227,9 @@ def cmParen : Nat → List String → Nat → PR
       else if term == "comment" then cmParen f (dropComment ts) n
       else cmParen f ts n
 
-inductive CMOut | ok (n : Nat) | bad | indexError
+/-- `bad attr`: a cell method interval was rejected; `attr` = the message quotes the attribute (the
+`literal_eval` site passes no `attribute=`). -/
+inductive CMOut | ok (n : Nat) | bad (attr : Bool) | indexError
   deriving DecidableEq, Repr
 
 def cmMain : Nat → List String → Nat → CMOut
@@ -242,8 +252,8 @@ def cmMain : Nat → List String → Nat → CMOut
             let rest4 := if h2 == "interval:" || h2 == "comment:" then rest3 else "comment:" :: rest3
             match cmParen (rest4.length + 1) rest4 0 with
             | .idx => .indexError
-            | .bad => .bad
-            | .ok rest5 k => if k > 1 && k != axes.length then .bad else cmMain f rest5 (n + 1)
+            | .bad => .bad false
+            | .ok rest5 k => if k > 1 && k != axes.length then .bad true else cmMain f rest5 (n + 1)
         else cmMain f (h :: rest3) (n + 1)
 
 def cmRun (s : String) : CMOut :=
@@ -255,16 +265,38 @@ def cmRun (s : String) : CMOut :=
 def parseCellMethods (cfg : Cfg) (s : String) : Except Err (Nat × Bool) :=
   match cmRun s with
   | .ok n => .ok (n, false)
-  | .bad => .ok (0, true)
+  | .bad _ => .ok (0, true)
   | .indexError => if cfg.guardCM then .ok (0, true) else .error .indexError
 
 /-! ## Messages, compression, the pre-scan -/
 
-/-- One `_add_message` call: the component (`variable=`) it is filed under and the attribute. -/
+/-- One `_add_message(parent, ncvar, message=, attribute=, variable=)` call: the component
+(`variable=`, the key of `g['component_report']`) it is filed under, the attribute name, and what the
+entry of `dataset_compliance()[parent]['non-compliance']` says: its key `ncvar` (`var`), the key of its
+`attribute` dictionary (`attr`, e.g. `ta:coordinates`; empty = `attribute=None`) and its `reason`
+(the two halves of `message=` joined by a blank). -/
 structure Msg where
   comp : String
   tag : String
+  var : String := comp
+  attr : String := ""
+  reason : String := ""
   deriving DecidableEq, Repr
+
+/-- The message that `_parse_cell_methods` records for the data variable `v`. -/
+def cellMethodsMsgs (cfg : Cfg) (v s : String) : List Msg :=
+  match cmRun s with
+  | .ok _ => []
+  | .bad false => [⟨v, "cell_methods", v, if cfg.cmAttr then v ++ ":cell_methods" else "",
+                    "Cell method interval is incorrectly formatted"⟩]
+  | .bad true => [⟨v, "cell_methods", v, v ++ ":cell_methods", "Cell method interval is incorrectly formatted"⟩]
+  | .indexError => [⟨v, "cell_methods", v, v ++ ":cell_methods", "cell_methods attribute is incorrectly formatted"⟩]
+
+/-- A message filed under its own `ncvar` whose attribute is `owner:tag`. -/
+def mkMsg (var owner tag reason : String) : Msg := ⟨var, tag, var, owner ++ ":" ++ tag, reason⟩
+
+/-- The same with `variable=comp`. -/
+def mkMsgC (comp var owner tag reason : String) : Msg := ⟨comp, tag, var, owner ++ ":" ++ tag, reason⟩
 
 inductive CompKind | gathered | ric | rc | ri
   deriving DecidableEq, Repr
@@ -354,12 +386,17 @@ def scanGathered (F : NcFile) (P : Pre) : Pre :=
       | some c =>
         let parsed := splitWS c
         let P := { P with noField := P.noField ++ [v.name] }
-        if parsed.isEmpty then { P with msgs := P.msgs ++ [(none, ⟨v.name, "compress"⟩)] }
+        if parsed.isEmpty then
+          { P with msgs := P.msgs ++ [(none, mkMsg v.name v.name "compress" "compress attribute is incorrectly formatted")] }
         else
           let bad := parsed.filter (fun d => !F.hasDim d)
           if bad.isEmpty then { P with comp := P.comp ++ [⟨v.name, .gathered, parsed⟩] }
-          else { P with msgs := P.msgs ++ bad.map (fun _ => (none, ⟨v.name, "compress"⟩)) }
+          else
+            let m := mkMsg v.name v.name "compress" "Compressed dimension is not in file"
+            { P with msgs := P.msgs ++ bad.map (fun _ => (none, m)) }
     else P) P
+
+def instMissing (v : String) : Msg := mkMsg v v "instance_dimension" "Instance dimension is not in file"
 
 structure DsgSt where
   P : Pre
@@ -395,7 +432,7 @@ def scanDsg (F : NcFile) (P : Pre) : Except Err Pre :=
                              noField := st.P.noField ++ [v.name] },
             inst := some idim }
         else pure { st with
-            P := { st.P with msgs := st.P.msgs ++ [(none, ⟨v.name, "instance_dimension"⟩)] }, inst := none }) s1
+            P := { st.P with msgs := st.P.msgs ++ [(none, instMissing v.name)] }, inst := none }) s1
     match s2.sample, s2.inst with
     | some sd, some idim => do
       let rc ← getOr .keyError ((s2.P.comp.filter (fun c => c.dim == sd)).find? (fun c => c.kind == .rc))
@@ -410,24 +447,29 @@ def scanDsg (F : NcFile) (P : Pre) : Except Err Pre :=
 def optToks (o : Option String) : List String := match o with | none => [] | some s => splitWS s
 
 /-- The four `_check_node_*` / `_check_interior_ring` functions: messages (filed under the parent). -/
-def geomChecks (F : NcFile) (gv : NcVar) : Bool × List Msg :=
+def geomChecks (F : NcFile) (parent : String) (gv : NcVar) : Bool × List Msg :=
   let nc := gv.attr? "node_coordinates"
   let cnt := gv.attr? "node_count"
   let pnc := gv.attr? "part_node_count"
   let ir := gv.attr? "interior_ring"
-  let m (a : String) (n : String) : Msg := ⟨n, a⟩
-  let missing (a : String) (ts : List String) : List Msg :=
-    (ts.filter (fun t => !F.hasVar t)).map (m a)
-  let r0 : List Msg := if ir.isSome && pnc.isNone then [m "geometry" gv.name] else []
+  let missing (a ty : String) (ts : List String) : List Msg :=
+    (ts.filter (fun t => !F.hasVar t)).map (fun t => mkMsg t gv.name a (ty ++ " is not in file"))
+  let r0 : List Msg :=
+    if ir.isSome && pnc.isNone then [mkMsg gv.name parent "geometry" "part_node_count attribute is missing"] else []
   let r1 : List Msg := match nc with
-    | none => [m "node_coordinates" gv.name]
-    | some s => if (splitWS s).isEmpty then [m "node_coordinates" gv.name] else missing "node_coordinates" (splitWS s)
-  let one (a : String) (o : Option String) : List Msg := match o with
+    | none => [mkMsg gv.name gv.name "node_coordinates" "node_coordinates attribute is missing"]
+    | some s =>
+      if (splitWS s).isEmpty then
+        [mkMsg gv.name gv.name "node_coordinates" "node_coordinates attribute is incorrectly formatted"]
+      else missing "node_coordinates" "Node coordinate variable" (splitWS s)
+  let one (a ty : String) (o : Option String) : List Msg := match o with
     | none => []
-    | some s => if (splitWS s).length != 1 then [m a gv.name] else missing a (splitWS s)
-  let r2 := one "node_count" cnt
-  let r3 := one "part_node_count" pnc
-  let r4 := one "interior_ring" ir
+    | some s =>
+      if (splitWS s).length != 1 then [mkMsg gv.name gv.name a (a ++ " attribute is incorrectly formatted")]
+      else missing a ty (splitWS s)
+  let r2 := one "node_count" "Node count variable" cnt
+  let r3 := one "part_node_count" "Part node count variable" pnc
+  let r4 := one "interior_ring" "Interior ring variable" ir
   let ms := r0 ++ r1 ++ r2 ++ r3 ++ r4
   (ms.isEmpty, ms)
 
@@ -439,17 +481,19 @@ def geomDimChecks (F : NcFile) (parent : NcVar) (gv : NcVar) : List Msg :=
   let pnc := optToks (gv.attr? "part_node_count")
   let ir := optToks (gv.attr? "interior_ring")
   let nd := dimsOf (ncs.headD "")
-  let r1 := (ncs.filter (fun n => (dimsOf n).length != 1 || dimsOf n != nd)).map (fun n => (⟨n, "node_coordinates"⟩ : Msg))
-  let (gd, who, a) := match cnt with
-    | c :: _ => (dimsOf c, c, "node_count")
-    | [] => (nd, ncs.headD "", "node_coordinates")
+  let bad (ty a n : String) : Msg := mkMsg n gv.name a (ty ++ " spans incorrect dimensions")
+  let r1 := (ncs.filter (fun n => (dimsOf n).length != 1 || dimsOf n != nd)).map
+    (bad "Node coordinate variable" "node_coordinates")
+  let (gd, who, a, ty) := match cnt with
+    | c :: _ => (dimsOf c, c, "node_count", "Node count variable")
+    | [] => (nd, ncs.headD "", "node_coordinates", "Node coordinate variable")
   -- a domain variable (CF>=1.9) names its dimensions in its `dimensions` attribute
   let pdims := parent.dims ++ optToks (parent.attr? "dimensions")
-  let r2 : List Msg := if r1.isEmpty && (gd.length != 1 || !pdims.contains (gd.headD "")) then [⟨who, a⟩] else []
+  let r2 : List Msg := if r1.isEmpty && (gd.length != 1 || !pdims.contains (gd.headD "")) then [bad ty a who] else []
   let r3 : List Msg := match pnc with
     | p :: _ =>
-      (if (dimsOf p).length != 1 then [(⟨p, "part_node_count"⟩ : Msg)] else []) ++
-      (ir.filter (fun n => dimsOf n != dimsOf p)).map (fun n => (⟨n, "interior_ring"⟩ : Msg))
+      (if (dimsOf p).length != 1 then [bad "Part node count variable" "part_node_count" p] else []) ++
+      (ir.filter (fun n => dimsOf n != dimsOf p)).map (bad "Interior ring variable" "interior_ring")
     | [] => []
   r1 ++ r2 ++ r3
 
@@ -461,16 +505,17 @@ def scanGeometry (cfg : Cfg) (F : NcFile) (P : Pre) : Except Err Pre :=
     | some ga =>
       let parsed := splitWS ga
       let add (P : Pre) (ms : List Msg) : Pre := { P with msgs := P.msgs ++ ms.map (fun m => (some v.name, m)) }
-      if parsed.length != 1 then pure (add P [⟨v.name, "geometry"⟩])
+      if parsed.length != 1 then
+        pure (add P [mkMsg v.name v.name "geometry" "geometry attribute is incorrectly formatted"])
       else
         let gn := parsed.headD ""
         match F.var? gn with
-        | none => pure (add P [⟨gn, "geometry"⟩])
+        | none => pure (add P [mkMsg gn v.name "geometry" "Geometry variable is not in file"])
         | some gv =>
           if P.geoms.any (fun g => g.name == gn) then
             pure { P with varGeom := P.varGeom ++ [(v.name, gn)] }
           else
-            let (ok, ms) := geomChecks F gv
+            let (ok, ms) := geomChecks F v.name gv
             let P := add P ms
             let ms2 := if ok && cfg.geomFix then geomDimChecks F v gv else []
             let P := add P ms2
@@ -499,10 +544,13 @@ def scanGeometry (cfg : Cfg) (F : NcFile) (P : Pre) : Except Err Pre :=
                 varGeom := P.varGeom ++ [(v.name, gn)],
                 noField := P.noField ++ cnt ++ pnc ++ ir ++ ncs ++ [gn] }) P
 
+def extExists (t : String) : Msg :=
+  ⟨t, "external_variables", t, "external_variables", "External variable exists in the file"⟩
+
 def scanExternal (F : NcFile) (P : Pre) : Pre :=
   let toks := optToks (F.globals.lookup "external_variables")
   { P with external := toks.filter (fun t => !F.hasVar t),
-           msgs := P.msgs ++ (toks.filter F.hasVar).map (fun t => (none, ⟨t, "external_variables"⟩)) }
+           msgs := P.msgs ++ (toks.filter F.hasVar).map (fun t => (none, extExists t)) }
 
 def preScan (cfg : Cfg) (F : NcFile) : Except Err Pre := do
   let P := scanGathered F {}
@@ -516,6 +564,7 @@ def preScan (cfg : Cfg) (F : NcFile) : Except Err Pre := do
 structure Caches where
   dim : List (String × Option String) := []   -- g['dimension_coordinate']: ncvar ↦ bounds ncvar
   aux : List (String × Option String) := []   -- g['auxiliary_coordinate']
+  auxGeom : List (String × Option String) := []  -- (patch) the geometry container each was created under
   da : List (String × Option String) := []    -- g['domain_ancillary']
   report : List Msg := []                     -- g['component_report'], flattened
   ftDone : List String := []                  -- keys of g['formula_terms']
@@ -535,17 +584,26 @@ def geomOf (P : Pre) (parent : String) : Option Geom :=
 
 /-- `_check_bounds` -/
 def checkBounds (F : NcFile) (P : Pre) (coord attr b : String) : Except Err (Bool × List Msg) :=
-  if !F.hasVar b then .ok (false, [⟨coord, attr⟩]) else do
+  if !F.hasVar b then .ok (false, [mkMsgC coord b coord attr "Bounds variable is not in file"]) else do
     let c ← ncdims F P coord
     let bd ← ncdims F P b
-    if bd.length == c.length + 1 && c == bd.dropLast then pure (true, []) else pure (false, [⟨coord, attr⟩])
+    if bd.length == c.length + 1 && c == bd.dropLast then pure (true, [])
+    else pure (false, [mkMsgC coord b coord attr "Bounds variable spans incorrect dimensions"])
 
-/-- `_check_geometry_node_coordinates`; the message is filed under the *parent* variable. -/
-def checkNodes (cfg : Cfg) (F : NcFile) (parent : String) (g : Geom) (b : String) : Except Err (Bool × List Msg) :=
+/-- `_check_geometry_node_coordinates`.  As coded the message is filed under the *parent* variable
+(`variable=field_ncvar`); with the proposed patch under the coordinate variable `coord` whose `nodes`
+attribute it is about (when there is one), so that `_copy_construct` hands it to every field that
+re-uses the coordinate. -/
+def checkNodes (cfg : Cfg) (F : NcFile) (parent : String) (coord : Option String) (g : Geom) (b : String) :
+    Except Err (Bool × List Msg) :=
+  let comp := if cfg.nodesComp then coord.getD parent else parent
   -- `' '.join(geometry['node_coordinates'])`
   if !g.complete && !cfg.geomFix then .error .keyError else
-  if !F.hasVar b then .ok (false, [⟨parent, "nodes"⟩])
-  else if !g.nodeCoords.contains b then .ok (false, [⟨parent, "nodes"⟩])
+  -- the attribute is quoted as `{field_ncvar:geometry_ncvar: node_coordinates}`
+  if !F.hasVar b then
+    .ok (false, [⟨comp, "nodes", b, parent ++ ":" ++ g.name, "Node coordinate variable is not in file"⟩])
+  else if !g.nodeCoords.contains b then
+    .ok (false, [⟨comp, "nodes", b, parent ++ ":" ++ g.name, "Node coordinate variable not in node_coordinates"⟩])
   -- as coded: a node variable on another dimension is not ragged, `get_count(bounds)` is None
   else if !cfg.geomFix && ((F.var? b).bind (·.dims.head?)) != some g.nodeDim then .error .attributeError
   else .ok (true, [])
@@ -576,7 +634,7 @@ def boundsOf (cfg : Cfg) (F : NcFile) (P : Pre) (parent : String) (ncvar : Optio
       match geomOf P parent with
       | none => .error .attributeError        -- `geometry.get` on None (not reachable)
       | some g =>
-        match checkNodes cfg F parent g b with
+        match checkNodes cfg F parent ncvar g b with
         | .error e => .error e
         | .ok r => .ok (if r.1 then some b else none, r.2)
     else
@@ -637,24 +695,34 @@ def stageDims (cfg : Cfg) (F : NcFile) (P : Pre) (v : String) (D : List String) 
       else pure s
     | none => pure s) s
 
+/-- `_check_auxiliary_or_scalar_coordinate`: the two messages. -/
+def coordMissing (v tok : String) : Msg :=
+  mkMsg tok v "coordinates" "Auxiliary/scalar coordinate variable is not in file"
+def coordForeign (v tok : String) : Msg :=
+  mkMsg tok v "coordinates" "Auxiliary/scalar coordinate variable spans incorrect dimensions"
+
 /-- One token of the `coordinates` attribute. -/
 def auxToken (cfg : Cfg) (F : NcFile) (P : Pre) (v : String) (D : List String) (s : FSt) (tok : String) :
     Except Err FSt :=
   if D.contains tok then .ok s else
   match F.var? tok with
-  | none => .ok (s.add [] [⟨tok, "coordinates"⟩, ⟨tok, "coordinates"⟩])
+  | none => .ok (s.add [] [coordMissing v tok, coordMissing v tok])
   | some cv => do
     let cd ← ncdims F P tok
-    if !dimsSubset cfg cv cd D then pure (s.add [] [⟨tok, "coordinates"⟩]) else
+    if !dimsSubset cfg cv cd D then pure (s.add [] [coordForeign v tok]) else
     -- `set_auxiliary_coordinate`: the data have a dimension for which the field has no axis
     if !(cd.all D.contains) then .error .valueError else
     let axes := cd.filter D.contains
-    let (b, s) ← match s.C.aux.lookup tok with
+    let gname := (geomOf P v).map (·.name)       -- `_get_geometry(field_ncvar, return_ncvar=True)`
+    let hit := if cfg.auxGeomKey && s.C.auxGeom.lookup tok != some gname then none else s.C.aux.lookup tok
+    let (b, s) ← match hit with
       | some b => pure (b, if cfg.auxReport then s.addCopied (copied s.C tok) else s)
       | none => do
         let (b, ms) ← boundsOf cfg F P v (some tok) none false
         let s := s.add [] ms
-        pure (b, { s with C := { s.C with aux := s.C.aux ++ [(tok, b)] } })
+        let aux' := s.C.aux.filter (fun e => e.1 != tok) ++ [(tok, b)]
+        let auxGeom' := s.C.auxGeom.filter (fun e => e.1 != tok) ++ [(tok, gname)]
+        pure (b, { s with C := { s.C with aux := aux', auxGeom := auxGeom' } })
     let cb := match b with | some b => [(tok, b)] | none => []
     if axes.isEmpty then
       if cv.isCharOrString then
@@ -691,24 +759,31 @@ def stageNodes (cfg : Cfg) (F : NcFile) (P : Pre) (v : String) (D : List String)
 
 abbrev Terms := List (String × Option String)
 
+def ftMalformed (cname : String) : Msg :=
+  mkMsg cname cname "formula_terms" "formula_terms attribute is incorrectly formatted"
+
+/-- The messages of the bounds half of `_check_formula_terms`: filed with `variable=coord`, quoting the
+bounds variable's attribute. -/
+def ftB (cname bn var reason : String) : Msg := mkMsgC cname var bn "formula_terms" reason
+
 /-- One `term: variable` pair of the coordinate's `formula_terms`. -/
 def ftStep (F : NcFile) (cname : String) (acc : Terms × List Msg) (x : String × List String) : Terms × List Msg :=
   match x.2 with
   | [n] => if F.hasVar n then (acc.1 ++ [(x.1, some n)], acc.2)
-           else (acc.1 ++ [(x.1, none)], acc.2 ++ [⟨n, "formula_terms"⟩])
-  | _ => (acc.1 ++ [(x.1, none)], acc.2 ++ [⟨cname, "formula_terms"⟩])
+           else (acc.1 ++ [(x.1, none)], acc.2 ++ [mkMsg n cname "formula_terms" "Formula terms variable is not in file"])
+  | _ => (acc.1 ++ [(x.1, none)], acc.2 ++ [ftMalformed cname])
 
 /-- One pair of the bounds variable's `formula_terms`. -/
-def ftBoundsStep (cfg : Cfg) (F : NcFile) (cname z : String) (cterms : Terms) (acc : Terms × List Msg)
+def ftBoundsStep (cfg : Cfg) (F : NcFile) (cname bn z : String) (cterms : Terms) (acc : Terms × List Msg)
     (x : String × List String) : Except Err (Terms × List Msg) :=
-  let bad : Terms × List Msg := (acc.1 ++ [(x.1, none)], acc.2 ++ [⟨cname, "formula_terms"⟩])
+  let bad (m : Msg) : Terms × List Msg := (acc.1 ++ [(x.1, none)], acc.2 ++ [m])
   match x.2 with
   | [n] =>
     match F.var? n with
-    | none => .ok bad
+    | none => .ok (bad (ftB cname bn n "Bounds formula terms variable is not in file"))
     | some nv =>
       match cterms.lookup x.1 with
-      | none => .ok bad
+      | none => .ok (bad (ftB cname bn bn "Bounds formula_terms attribute has incompatible terms"))
       | some none =>
         -- `g['variable_dimensions'][None]`
         if cfg.guardFT then .ok (acc.1 ++ [(x.1, none)], acc.2) else .error .keyError
@@ -717,10 +792,14 @@ def ftBoundsStep (cfg : Cfg) (F : NcFile) (cname z : String) (cterms : Terms) (a
         | .error e => .error e
         | .ok pv =>
           if !pv.dims.contains z then
-            if n != par then .ok bad else .ok (acc.1 ++ [(x.1, some n)], acc.2)
-          else if nv.dims.length != pv.dims.length + 1 || pv.dims != nv.dims.dropLast then .ok bad
+            if n != par then
+              .ok (bad (ftB cname bn bn ("Bounds formula terms variable that does not span the vertical dimension " ++
+                "is inconsistent with the formula_terms of the parametric coordinate variable")))
+            else .ok (acc.1 ++ [(x.1, some n)], acc.2)
+          else if nv.dims.length != pv.dims.length + 1 || pv.dims != nv.dims.dropLast then
+            .ok (bad (ftB cname bn bn "Bounds formula terms variable spans incorrect dimensions"))
           else .ok (acc.1 ++ [(x.1, some n)], acc.2)
-  | _ => .ok bad
+  | _ => .ok (bad (ftB cname bn bn "Bounds formula_terms attribute is incorrectly formatted"))
 
 /-- Bounds inferred when the bounds variable has no `formula_terms` (no term variable is itself a
 coordinate of the parent here). -/
@@ -735,13 +814,14 @@ def ftInferStep (cfg : Cfg) (F : NcFile) (P : Pre) (cname z : String) (acc : Ter
     | .error e => .error e
     | .ok nd =>
       if !nd.contains z then .ok (acc.1 ++ [(t.1, some n)], acc.2)
-      else .ok (acc.1 ++ [(t.1, none)], acc.2 ++ [⟨cname, "formula_terms"⟩])
+      else .ok (acc.1 ++ [(t.1, none)], acc.2 ++
+        [mkMsgC cname n cname "formula_terms" "Formula terms variable that spans the vertical dimension has no bounds"])
 
 /-- `_check_formula_terms`: (coordinate terms, bounds terms, messages). -/
 def checkFormulaTerms (cfg : Cfg) (F : NcFile) (P : Pre) (coord : NcVar) (ft : String) (z : String) :
     Except Err (Terms × Terms × List Msg) :=
   let parsed := parseX ft
-  if parsed.isEmpty then .ok ([], [], [⟨coord.name, "formula_terms"⟩]) else
+  if parsed.isEmpty then .ok ([], [], [ftMalformed coord.name]) else
   let r := parsed.foldl (ftStep F coord.name) ([], [])
   let cterms := r.1
   let ms := r.2
@@ -757,14 +837,18 @@ def checkFormulaTerms (cfg : Cfg) (F : NcFile) (P : Pre) (coord : NcVar) (ft : S
       match bv.attr? "formula_terms" with
       | some bft =>
         let bparsed := parseX bft
-        let ms := if bparsed.isEmpty then ms ++ [⟨coord.name, "formula_terms"⟩] else ms
-        match bparsed.foldlM (ftBoundsStep cfg F coord.name z cterms) ([], ms) with
+        -- (this one quotes the coordinate's attribute)
+        let ms := if bparsed.isEmpty then
+            ms ++ [mkMsgC coord.name bn coord.name "formula_terms" "Bounds formula_terms attribute is incorrectly formatted"]
+          else ms
+        match bparsed.foldlM (ftBoundsStep cfg F coord.name bn z cterms) ([], ms) with
         | .error e => .error e
         | .ok r2 =>
           let bterms := r2.1
           let same := cterms.all (fun t => bterms.any (fun b => b.1 == t.1)) &&
                       bterms.all (fun b => cterms.any (fun t => t.1 == b.1))
-          .ok (cterms, bterms, if same then r2.2 else r2.2 ++ [⟨coord.name, "formula_terms"⟩])
+          .ok (cterms, bterms, if same then r2.2 else
+            r2.2 ++ [ftB coord.name bn bn "Bounds formula_terms attribute has incompatible terms"])
       | none =>
         match cterms.foldlM (ftInferStep cfg F P coord.name z) ([], ms) with
         | .error e => .error e
@@ -777,7 +861,7 @@ def ftGiven (bterms : Terms) (term n : String) : Option String :=
   | _ => none
 
 /-- One mapped term of an attached coordinate: the domain ancillary and its bounds. -/
-def ftTermStep (cfg : Cfg) (F : NcFile) (P : Pre) (v : String) (D : List String) (bterms : Terms)
+def ftTermStep (cfg : Cfg) (F : NcFile) (P : Pre) (v cn : String) (D : List String) (bterms : Terms)
     (acc : FSt × List (String × Option String) × Bool) (t : String × Option String) :
     Except Err (FSt × List (String × Option String) × Bool) :=
   match t.2 with
@@ -798,7 +882,8 @@ def ftTermStep (cfg : Cfg) (F : NcFile) (P : Pre) (v : String) (D : List String)
       | .error e => .error e
       | .ok bs =>
         if axes.length == nd.length then .ok (bs.2, acc.2.1 ++ [(n, bs.1)], acc.2.2)
-        else .ok (bs.2.add [] [⟨n, "formula_terms"⟩], acc.2.1, false)
+        else .ok (bs.2.add [] [mkMsg n cn "formula_terms" "Formula terms variable spans incorrect dimensions"],
+                  acc.2.1, false)
 
 /-- The formula terms of one attached coordinate. -/
 def ftCoordStep (cfg : Cfg) (F : NcFile) (P : Pre) (v : String) (D : List String) (s : FSt) (cn : String) :
@@ -821,7 +906,7 @@ def ftCoordStep (cfg : Cfg) (F : NcFile) (P : Pre) (v : String) (D : List String
           let fresh := cfg.ftEach || !s.C.ftDone.contains cn
           let s := if fresh then s.add [] chk.2.2 else s
           let s := { s with C := { s.C with ftDone := if s.C.ftDone.contains cn then s.C.ftDone else s.C.ftDone ++ [cn] } }
-          match cterms.foldlM (ftTermStep cfg F P v D bterms) (s, [], true) with
+          match cterms.foldlM (ftTermStep cfg F P v cn D bterms) (s, [], true) with
           | .error e => .error e
           | .ok r =>
             let s := r.1
@@ -859,14 +944,36 @@ def checked {α} (cfg : Cfg) (chk : List α → Except Err (Bool × List Msg)) (
     Except Err (List α × List Msg) :=
   if cfg.perToken && !xs.isEmpty then perEntry chk xs else allOrNothing chk xs
 
+def gmCoordMissing (v c : String) : Msg :=
+  mkMsg c v "grid_mapping" "Grid mapping coordinate variable is not in file"
+
+def gmCoordUnused (v c : String) : Msg :=
+  mkMsg c v "grid_mapping" "Grid mapping coordinate variable is not used by data variable"
+
 /-- `_check_grid_mapping` on a list of parsed mappings. -/
 def checkGridMapping (F : NcFile) (v : String) (xs : List (String × List String)) : Bool × List Msg :=
-  if xs.isEmpty then (false, [⟨v, "grid_mapping"⟩]) else
+  if xs.isEmpty then (false, [mkMsg v v "grid_mapping" "grid_mapping attribute is incorrectly formatted"]) else
   let ms := xs.foldl (fun ms x =>
-    let m1 : List Msg := if F.hasVar x.1 then [] else [⟨x.1, "grid_mapping"⟩, ⟨x.1, "grid_mapping"⟩]
-    let m2 : List Msg := (x.2.filter (fun c => !F.hasVar c)).foldl (fun a c => a ++ [⟨c, "grid_mapping"⟩, ⟨c, "grid_mapping"⟩]) []
+    let g := mkMsg x.1 v "grid_mapping" "Grid mapping variable is not in file"
+    let m1 : List Msg := if F.hasVar x.1 then [] else [g, g]
+    let m2 : List Msg := (x.2.filter (fun c => !F.hasVar c)).foldl (fun a c =>
+      a ++ [gmCoordMissing v c, gmCoordMissing v c]) []
     ms ++ m1 ++ m2) []
   (ms.isEmpty, ms)
+
+/-- One compliant grid mapping `x = (grid mapping variable, listed coordinates)`. -/
+def gmEntry (cfg : Cfg) (F : NcFile) (v : String) (s : FSt) (x : String × List String) : Except Err FSt := do
+  -- `g['variable_attributes'][grid_mapping_ncvar]`
+  let _ ← getOr .keyError (F.var? x.1)
+  -- (patch) the listed coordinates that are not coordinates of this data variable are reported
+  let s := if cfg.gmReport then
+      s.add [] ((x.2.filter (fun n => (List.lookup n s.keys).isNone)).map (gmCoordUnused v))
+    else s
+  let coords := x.2.filterMap (fun n => List.lookup n s.keys)
+  -- `g['vertical_crs']` is keyed by construct keys of whichever field put them there
+  let (_, createNew) := s.C.vcrs.foldl (fun (acc : List String × Bool) k =>
+    if acc.1.contains k then (acc.1.erase k, !(acc.1.erase k).isEmpty) else acc) (coords, true)
+  if createNew then pure ((s.add ["ref:gm:" ++ x.1] []).otherKey x.1) else pure s
 
 def stageGridMapping (cfg : Cfg) (F : NcFile) (v : String) (vv : NcVar) (s : FSt) : Except Err FSt :=
   match vv.attr? "grid_mapping" with
@@ -874,31 +981,26 @@ def stageGridMapping (cfg : Cfg) (F : NcFile) (v : String) (vv : NcVar) (s : FSt
   | some gm =>
     match checked cfg (fun xs => .ok (checkGridMapping F v xs)) (parseX gm) with
     | .error e => .error e
-    | .ok (keep, ms) =>
-    let s := s.add [] ms
-    keep.foldlM (fun (s : FSt) x => do
-      -- `g['variable_attributes'][grid_mapping_ncvar]`
-      let _ ← getOr .keyError (F.var? x.1)
-      let coords := x.2.filterMap (fun n => List.lookup n s.keys)
-      -- `g['vertical_crs']` is keyed by construct keys of whichever field put them there
-      let (_, createNew) := s.C.vcrs.foldl (fun (acc : List String × Bool) k =>
-        if acc.1.contains k then (acc.1.erase k, !(acc.1.erase k).isEmpty) else acc) (coords, true)
-      if createNew then pure ((s.add ["ref:gm:" ++ x.1] []).otherKey x.1) else pure s) s
+    | .ok (keep, ms) => keep.foldlM (gmEntry cfg F v) (s.add [] ms)
+
+def msrMalformed (v : String) : Msg := mkMsg v v "cell_measures" "cell_measures attribute is incorrectly formatted"
 
 /-- `_check_cell_measures` on a list of parsed mappings. -/
 def checkCellMeasures (cfg : Cfg) (F : NcFile) (P : Pre) (v : String) (D : List String) (xs : List (String × List String)) :
     Except Err (Bool × List Msg) :=
-  if xs.isEmpty then .ok (false, [⟨v, "cell_measures"⟩]) else do
+  if xs.isEmpty then .ok (false, [msrMalformed v]) else do
   let ms ← xs.foldlM (fun (ms : List Msg) x =>
     match x.2 with
     | [n] =>
       if P.external.contains n then pure ms
       else match F.var? n with
-        | none => pure (ms ++ [⟨n, "cell_measures"⟩])
+        | none => pure (ms ++ [mkMsg n v "cell_measures" ("Cell measures variable is not in file nor referenced by the " ++
+            "external_variables global attribute")])
         | some nv => do
           let nd ← ncdims F P n
-          if dimsSubset cfg nv nd D then pure ms else pure (ms ++ [⟨n, "cell_measures"⟩])
-    | _ => pure (ms ++ [⟨v, "cell_measures"⟩])) []
+          if dimsSubset cfg nv nd D then pure ms
+          else pure (ms ++ [mkMsg n v "cell_measures" "Cell measures variable spans incorrect dimensions"])
+    | _ => pure (ms ++ [msrMalformed v])) []
   pure (ms.isEmpty, ms)
 
 def stageCellMeasures (cfg : Cfg) (F : NcFile) (P : Pre) (v : String) (D : List String) (vv : NcVar) (s : FSt) :
@@ -917,21 +1019,26 @@ def stageCellMeasures (cfg : Cfg) (F : NcFile) (P : Pre) (v : String) (D : List 
       pure ((s.add ["msr:" ++ n] []).otherKey n)) s
 
 /-- `_check_ancillary_variables` on a list of names. -/
-def checkAncillaryGo (cfg : Cfg) (F : NcFile) (P : Pre) (D : List String) : List String → List Msg → Except Err (Bool × List Msg)
+def ancMissing (v n : String) : Msg := mkMsg n v "ancillary_variables" "Ancillary variable is not in file"
+def ancForeign (v n : String) : Msg := mkMsg n v "ancillary_variables" "Ancillary variable spans incorrect dimensions"
+def ancMalformed (v : String) : Msg :=
+  mkMsg v v "ancillary_variables" "ancillary_variables attribute is incorrectly formatted"
+
+def checkAncillaryGo (cfg : Cfg) (F : NcFile) (P : Pre) (v : String) (D : List String) : List String → List Msg → Except Err (Bool × List Msg)
   | [], ms => .ok (ms.isEmpty, ms)
   | n :: rest, ms =>
     match F.var? n with
-    | none => .ok (false, ms ++ [⟨n, "ancillary_variables"⟩])     -- returns at the first missing one
+    | none => .ok (false, ms ++ [ancMissing v n])     -- returns at the first missing one
     | some nv =>
       match ncdims F P n with
       | .error e => .error e
       | .ok nd =>
-        if dimsSubset cfg nv nd D then checkAncillaryGo cfg F P D rest ms
-        else checkAncillaryGo cfg F P D rest (ms ++ [⟨n, "ancillary_variables"⟩])
+        if dimsSubset cfg nv nd D then checkAncillaryGo cfg F P v D rest ms
+        else checkAncillaryGo cfg F P v D rest (ms ++ [ancForeign v n])
 
 def checkAncillary (cfg : Cfg) (F : NcFile) (P : Pre) (v : String) (D : List String) (ts : List String) :
     Except Err (Bool × List Msg) :=
-  if ts.isEmpty then .ok (false, [⟨v, "ancillary_variables"⟩]) else checkAncillaryGo cfg F P D ts []
+  if ts.isEmpty then .ok (false, [ancMalformed v]) else checkAncillaryGo cfg F P v D ts []
 
 def stageAncillary (cfg : Cfg) (F : NcFile) (P : Pre) (v : String) (D : List String) (vv : NcVar) (s : FSt) :
     Except Err FSt :=
@@ -951,7 +1058,7 @@ def stageCellMethods (cfg : Cfg) (v : String) (vv : NcVar) (s : FSt) : Except Er
   | none => .ok s
   | some cm => do
     let (n, rep) ← parseCellMethods cfg cm
-    pure (s.add ["cm:" ++ toString n] (if rep then [⟨v, "cell_methods"⟩] else []))
+    pure (s.add ["cm:" ++ toString n] (if rep then cellMethodsMsgs cfg v cm else []))
 
 /-- The construct-creating part of `_create_field_or_domain`, in the order of the code. -/
 def runStages (cfg : Cfg) (F : NcFile) (P : Pre) (vv : NcVar) (D : List String) (s : FSt) : Except Err FSt := do
